@@ -42,7 +42,8 @@ def indexed_file(draw, tier, max_records=30, min_records=1):
     if draw(st.integers(0, 2)) > 0:
         ncuts = draw(st.integers(0, 6))
         cuts = sorted(set(draw(st.lists(st.integers(1, max(1, data_len - 1)), min_size=ncuts, max_size=ncuts))))
-        comp = {"cuts": cuts, "empty": draw(st.booleans())}
+        comp = {"cuts": cuts, "empty": draw(st.booleans()),
+                "suffix": draw(st.sampled_from([".gz", ".gz", ".bgz", ""]))}  # compression is detected by content, not by name
     return g, {
         "gfa": gen_graph.gfa_text(g, with_seq=False, order_seed=draw(st.integers(0, 99))),
         "gaf": lines,
@@ -56,7 +57,7 @@ def materialize(d, case, name="in.gaf"):
     core.write_text(d + "/g.gfa", case["gfa"])
     data = "".join(l + "\n" for l in case["gaf"]).encode()
     if case.get("bgzf"):
-        path = d + "/" + name + ".gz"
+        path = d + "/" + name + case["bgzf"].get("suffix", ".gz")
         table = bgzf.write_bgzf(path, data, case["bgzf"]["cuts"], case["bgzf"]["empty"])
     else:
         path = d + "/" + name
@@ -97,6 +98,8 @@ def build_index(gaf_path, gfa_path, out, via="api"):
 
 def file_classes(case, table):
     cl = ["stable" if case["stable"] else "unstable", "bgzf" if case.get("bgzf") else "plain"]
+    if case.get("bgzf") and case["bgzf"].get("suffix", ".gz") != ".gz":
+        cl.append("bgzf_file_not_named_gz")
     if "SN:Z:chr1_" in case["gfa"] or "\ts2" in case["gfa"] and "SO:i:1" in case["gfa"] and len(case["gfa"]) > 3000 and "sniffles" in case["gfa"]:
         cl.append("real_graph_window")
     if table is not None:
